@@ -10,12 +10,14 @@ import coqemit as E
 ID = "C03"
 LEVEL_TEXT = ("Coq theorems over an executable model of the labelled dense matrices (one per-axis model instantiated for 13 classes): "
               "every select/delete/remove/reorder/sort/group/ungroup (all classes incl. both axes of the square ones) and every "
-              "adjoin/append/insert/incorp along a one-axis kind refines the same list operation on the entity list of its axis for the "
-              "cells and for every label array (arbitrary labellings, so duplicates are covered; no label array is lost), for every "
-              "history of the unary operations; group metadata are a true contiguous partition after group_<axis> and 'grouped => partition' "
+              "adjoin/append/insert/incorp (any index kind incl. a scalar, on any array axis) along a one-axis kind refines the same list "
+              "operation on the entity list of its axis for the cells and for every label array (arbitrary labellings, so duplicates are "
+              "covered; no label array is lost), for every history of the unary operations; a scalar insertion index is the "
+              "one-element index list; group metadata are a true contiguous partition after group_<axis> and 'grouped => partition' "
               "is an invariant of every history of all 12 operation kinds; generic form = axis-specific form and the dispatch/metadata-reset "
-              "tables regenerated from the source by ast satisfy the model's tables; mutating = non-mutating counterpart; three refutations "
-              "(scalar-index insert on an inner axis, one-axis insert of square matrices, label loss in DenseSquareTaxaTraitMatrix). "
+              "tables regenerated from the source by ast satisfy the model's tables; mutating = non-mutating counterpart; two refutations "
+              "(one-axis insert/incorp/concat of square-taxa matrices, label loss in DenseSquareTaxaTraitMatrix) and one regression witness "
+              "about the former code of a repaired defect (scalar-index insert on an inner axis). "
               "The model is tied to the code by evaluating whole operation histories inside Coq against the implementation's state after "
               "every step, plus an independent entity-tracing predicate")
 LEVEL_NOTE = ("trusted: Coq kernel + vm_compute; the hand-written model of numpy.take/delete/insert/append/concatenate/lexsort/unique "
@@ -750,12 +752,9 @@ def deviation(C, S, T, op, main):
                 return "sqtt-drop", U
     if C["square"] and kind == "taxa" and k in ("insert", "incorp", "concat"):
         return "sq-insert", None
-    if k in ("insert", "incorp") and op["obj"]["t"] == "int" and min(kind_axes(C, kind)) > 0:
-        return "scalar-insert", None
     return None, None
 
-TAGS = {"sqtt-drop": "C03-squaretaxatrait-drops-labels", "sq-insert": "C03-square-insert-one-axis",
-        "scalar-insert": "C03-scalar-insert-moveaxis"}
+TAGS = {"sqtt-drop": "C03-squaretaxatrait-drops-labels", "sq-insert": "C03-square-insert-one-axis"}
 
 def pred(case, out):
     """the property stated on the implementation's snapshots, by entity tracing with plain list operations"""
@@ -778,7 +777,7 @@ def pred(case, out):
         C1 = BY_PYNAME.get(main.get("cls"), C)
         spre = ""
         if op["k"] != "genotype" and is_terminal(C, op) and op.get("ax") in C["lkinds"]:
-            spre = "[sq-insert] " if (C["square"] and op["ax"] == "taxa" and op["k"] in ("insert", "incorp", "concat")) else "[scalar-insert] "
+            spre = "[sq-insert] "
         nb = len(bad)
         if "exc" not in main:
             for kk in C1["kinds"]:
@@ -1010,7 +1009,6 @@ class _Gen:
         form, gax = self.form(kind)
         op = {"k": k, "ax": kind, "form": form, "gax": gax}
         n = len(S["ents"][kind])
-        deep = min(kind_axes(C, kind)) > 0
         if not valid and r.random() < 0.3:
             nd = len(C["ax"]); op["form"] = "g"
             wrong = [a for a in range(-nd - 1, nd + 1) if not (-nd <= a < nd) or (a % nd) not in kind_axes(C, kind)]
@@ -1026,8 +1024,7 @@ class _Gen:
                 kk = r.choice([1, n, n, r.choice([1, 2, 3])])
             else:
                 kk = r.choice([1, 1, 2, 2, 3])
-            scalar_ok = (not deep) or last
-            op["obj"] = self.ins_obj(n, kk, scalar_ok and (not deep or r.random() < 0.5), valid)
+            op["obj"] = self.ins_obj(n, kk, True, valid)         # scalar indices on every axis (inner axes: a repaired defect)
             if valid:
                 pos, _ = insert_positions(n, op["obj"])
                 if len(pos) > 1 and kk != 1: kk = len(pos)
@@ -1069,7 +1066,6 @@ def is_terminal(C, op):
     if op["k"] == "genotype": return False
     kind = op["ax"]
     if C["square"] and kind == "taxa" and op["k"] in ("insert", "incorp", "concat"): return True
-    if op["k"] in ("insert", "incorp") and op["obj"]["t"] == "int" and min(kind_axes(C, kind)) > 0: return True
     return False
 
 def gen_history(rng, clsname, nops, tier):
